@@ -20,7 +20,7 @@ def execute(c):
         src, dst, rr = plan(c)
         ev["o"] = {"roi_src": roi4(rr.roi_src), "roi_dst": roi4(rr.roi_dst), "paste_ok": bool(rr.paste_ok),
                    "shrink": int(rr.read_shrink) if float(rr.read_shrink).is_integer() else -1}
-        if rr.paste_ok and rr.read_shrink == 1 and not c.get("xcrs"):
+        if rr.paste_ok and rr.read_shrink == 1 and not c.get("xcrs") and "den" not in c:
             k = (c["A"][2] // 15 + c["A"][5] // 15 + c["hs"] + c["wd"]) % len(DTYPES)
             dt = np.dtype(DTYPES[k])
             ids = 1 + np.arange(c["hs"] * c["ws"], dtype="int64").reshape(c["hs"], c["ws"])      # unique ids 1..36
